@@ -28,6 +28,37 @@ import (
 // edits that restart the API server (see sensitivity/C40.md, "API restart while another edit is in flight").
 const c40KnownAPIRestart = "c40-config-edit-during-api-restart-deadlock"
 
+// c40KnownStreamClose is the known-finding key under which no RTSP reader is generated (DESCRIBE/SETUP of a reader
+// call Stream.RTSPStream(), which races with Stream.Close(); see sensitivity/C40.md).
+const c40KnownStreamClose = "c40-stream-close-vs-rtspstream-race"
+
+// c40KnownMetricsNil is the known-finding key under which metrics scrapes are serialised against edits that
+// recreate the path manager and against the shutdown (a scrape in that window dereferences a nil path manager and
+// the HTTP panic handler exits the process; see sensitivity/C40.md).
+const c40KnownMetricsNil = "c40-metrics-scrape-during-pathmanager-restart-panic"
+
+// c40KnownRecordHook is the known-finding key under which no edit switches recording on (the recorder's segment
+// callbacks read pa.conf without confMutex and race with path.doReloadConf; see sensitivity/C40.md).
+const c40KnownRecordHook = "c40-record-segment-hook-reads-conf-unlocked"
+
+// c40KnownKick is the known-finding key under which no session is kicked (Server.APISessionsKick runs
+// session.onClose() on the API goroutine, racing with the session's own handlers; see sensitivity/C40.md).
+const c40KnownKick = "c40-rtsp-kick-runs-onclose-concurrently"
+
+// c40Known: listed in known_findings.json (kit.Known) or assumed for a development / sensitivity run through
+// C40_ASSUME_KNOWN (comma separated), so that mutants can be tried behind findings that are not listed yet.
+func c40Known(key string) bool {
+	if kit.Known(key) {
+		return true
+	}
+	for _, k := range strings.Split(os.Getenv("C40_ASSUME_KNOWN"), ",") {
+		if strings.TrimSpace(k) == key {
+			return true
+		}
+	}
+	return false
+}
+
 // ---------------------------------------------------------------- world
 
 // c40World is the live Core plus everything the actors share. Actors never read Core or path fields:
@@ -48,8 +79,12 @@ type c40World struct {
 	globalMu sync.Mutex   // serialises [global patch .. path manager pointer refresh]
 	pmReadMu sync.RWMutex // a pointer refresh never overlaps the shutdown
 	confMu   sync.RWMutex // only used when the API-restart finding is listed as known
+	metMu    sync.RWMutex // only used when the metrics finding is listed as known
 	stopping atomic.Bool
 	serial   bool
+	metSer   bool
+	noRecord bool
+	noKick   bool
 }
 
 func c40StartWorld() (*c40World, error) {
@@ -76,7 +111,10 @@ func c40StartWorld() (*c40World, error) {
 	w.apiBase = fmt.Sprintf("http://127.0.0.1:%d", c.Ports["api"])
 	w.metBase = fmt.Sprintf("http://127.0.0.1:%d", c.Ports["metrics"])
 	w.rtspHost = fmt.Sprintf("127.0.0.1:%d", c.Ports["rtsp"])
-	w.serial = kit.Known(c40KnownAPIRestart)
+	w.serial = c40Known(c40KnownAPIRestart)
+	w.metSer = c40Known(c40KnownMetricsNil)
+	w.noRecord = c40Known(c40KnownRecordHook)
+	w.noKick = c40Known(c40KnownKick)
 	w.t0 = time.Now()
 	return w, nil
 }
@@ -257,6 +295,10 @@ func (ar *c40ActorRun) exec(w *c40World, s c40Step) string {
 			w.stopping.Store(true)
 			w.pmReadMu.Lock()   // wait for a pointer refresh in progress; later ones see stopping
 			w.pmReadMu.Unlock() //nolint:staticcheck
+			if w.metSer {
+				w.metMu.Lock()
+				defer w.metMu.Unlock()
+			}
 			w.c.Core.Close()
 		}
 		return "ok"
@@ -471,6 +513,10 @@ func (ar *c40ActorRun) execAPI(w *c40World, s c40Step) string {
 		return get("/v3/recordings/list")
 	case "metrics":
 		q := []string{"", "?path=s0", "?type=paths"}[s.Arg%3]
+		if w.metSer {
+			w.metMu.RLock()
+			defer w.metMu.RUnlock()
+		}
 		st, _, err := vcHTTP(w.hc, http.MethodGet, w.metBase+"/metrics"+q, nil, nil)
 		return c40HTTPOutcome(st, err)
 	case "kick":
@@ -488,6 +534,9 @@ func (ar *c40ActorRun) execAPI(w *c40World, s c40Step) string {
 		}
 		if len(l.Items) == 0 {
 			return "err:nobody to kick"
+		}
+		if w.noKick {
+			return "err:kick excluded (known finding)"
 		}
 		st, _, err = w.api(http.MethodPost, "/v3/rtspsessions/kick/"+l.Items[s.Arg%len(l.Items)].ID, nil)
 		return c40HTTPOutcome(st, err)
@@ -529,6 +578,9 @@ func (ar *c40ActorRun) execConf(w *c40World, s c40Step) string {
 			w.fwdBody(true), w.fwdBody(false),
 			`{"recordSegmentDuration":"2s"}`, `{"recordSegmentDuration":"1h"}`,
 		}[s.Arg%8]
+		if w.noRecord && s.Arg%8 == 0 {
+			body = `{"record":false}`
+		}
 		st, _, err := w.api(http.MethodPatch, c40Route("/v3/config/paths/patch/", s.Path), body)
 		return finish(st, err)
 	case "patchCold":
@@ -549,6 +601,10 @@ func (ar *c40ActorRun) execConf(w *c40World, s c40Step) string {
 		}[s.Arg%10]
 		w.globalMu.Lock()
 		defer w.globalMu.Unlock()
+		if w.metSer {
+			w.metMu.Lock()
+			defer w.metMu.Unlock()
+		}
 		st, _, err := w.api(http.MethodPatch, "/v3/config/global/patch", body)
 		w.refreshPM()
 		return c40HTTPOutcome(st, err)
@@ -569,6 +625,9 @@ func (ar *c40ActorRun) execConf(w *c40World, s c40Step) string {
 		return finish(st, err)
 	case "replacePath":
 		body := []string{`{}`, `{"overridePublisher":false}`, `{"record":true}`}[s.Arg%3]
+		if w.noRecord && s.Arg%3 == 2 {
+			body = `{"record":false}`
+		}
 		if s.Path == "aa" {
 			// keep the always-available path what it is, otherwise replace turns it into a plain one for good
 			body = `{"alwaysAvailable":true,"alwaysAvailableTracks":[{"codec":"LPCM","sampleRate":48000,"channelCount":2}],"maxReaders":` +
@@ -578,6 +637,9 @@ func (ar *c40ActorRun) execConf(w *c40World, s c40Step) string {
 		return finish(st, err)
 	case "pathDefaults":
 		body := []string{`{"maxReaders":0}`, `{"maxReaders":3}`, `{"record":true}`, `{"record":false}`}[s.Arg%4]
+		if w.noRecord && s.Arg%4 == 2 {
+			body = `{"record":false}`
+		}
 		st, _, err := w.api(http.MethodPatch, "/v3/config/pathdefaults/patch", body)
 		return finish(st, err)
 	}
